@@ -610,7 +610,13 @@ impl Monitor for Parsing {
                         let mut d = gen::gen_document(rng, &cfg);
                         if matches!(enc, Enc::Latin1 | Enc::Win1252) {
                             // sprinkle characters of the upper half
-                            let extra = if enc == Enc::Win1252 { "é€ÿ\u{a0}Š" } else { "éÿ\u{a0}ñ" };
+                            // upper-half characters; some spellings are chosen so that the encoded bytes
+                            // happen to be valid UTF-8 (e.g. "Ã©" = C3 A9), which must not fool the decoder
+                            let extra = if enc == Enc::Win1252 {
+                                *rng.pick(&["é€ÿ\u{a0}Š", "â‚¬", "Ã©", "Â°Ã±", "€"])
+                            } else {
+                                *rng.pick(&["éÿ\u{a0}ñ", "Ã©", "Â°Ã±", "Ã¿Â\u{a0}", "é"])
+                            };
                             d.walk_mut(&mut |n| {
                                 if n.kind == AKind::Text {
                                     n.text.push_str(extra);
